@@ -15,7 +15,7 @@ func init() {
 	property("C06",
 		"Static conformance of the hoisting mechanism: (a) each inline arm of the argument loop records one text/movement with the command being built, the index of the argument being built, the owning script name, and leaves one placeholder in the argument; (b) addImplicitTexts / addImplicitMovements patch exactly that argument with a label, on a miss define the label once (same key for lookup and insert, the per-script counter used is the one incremented, content and string type copied from the record, local scope), dedup keys cover content and string type / separator-joined steps; (c) every *impData produced by a callee flows into the value the function returns (or into the program) on every successful path — nothing collected on the way up is lost; (d) label formats; (e) every program text is emitted and hoisted movements are dispatched to the movement emitter.",
 		[]string{"Go map equality of the dedup key struct (content, string type)", "scheme argument of DESIGN §4 C06"},
-		"C06.a", "C06.b", "C06.c", "C06.d", "C06.e", "C20.d")
+		"C06.a", "C06.b", "C06.c", "C06.d", "C06.e", "C12.a", "C20.d")
 
 	register(&Rule{ID: "C06.a", Doc: "inline arms record (command, argument index, script, content) and leave a placeholder", Floor: 4, Run: c06a})
 	register(&Rule{ID: "C06.b", Doc: "patch-and-define protocol of addImplicitTexts / addImplicitMovements", Floor: 14, Run: c06b})
@@ -31,6 +31,28 @@ func (c *Ctx) withFields(fn *ssa.Function, term string) (string, map[string]stri
 		return wi.base, wi.over
 	}
 	return "", nil
+}
+
+// mayBeSuccessRet: the return can be a successful one: its error result is not known to be
+// non-nil (a freshly built error, or a value tested non-nil on every path to the return).
+func (c *Ctx) mayBeSuccessRet(fn *ssa.Function, r *ssa.Return) bool {
+	if len(r.Results) == 0 {
+		return true
+	}
+	last := r.Results[len(r.Results)-1]
+	if !isErrorType(last.Type()) || isNilConst(last) {
+		return true
+	}
+	if call, ok := last.(*ssa.Call); ok {
+		n := calleeName(call)
+		if strings.HasSuffix(n, ".NewParseError") || strings.HasSuffix(n, ".NewRangeParseError") || n == "fmt.Errorf" || n == "errors.New" {
+			return false
+		}
+	}
+	if _, ok := last.(*ssa.MakeInterface); ok {
+		return false
+	}
+	return !hasLit(c.mustLits(fn, r.Block()), "-("+c.term(fn, last)+" == nil)")
 }
 
 // isSuccessRet: the error result is nil (constant, or known nil on every path to the return).
@@ -511,7 +533,7 @@ func c06c(c *Ctx) {
 			bad := ""
 			nRet := 0
 			for _, r := range returnsOf(fn) {
-				if !c.isSuccessRet(fn, r) || !canReach(si, r) {
+				if !c.mayBeSuccessRet(fn, r) || !canReach(si, r) {
 					continue
 				}
 				// only returns that return an impData at all
@@ -550,7 +572,7 @@ func c06c(c *Ctx) {
 				}
 				_, skip := existsPath(pathQuery{from: after(si), avoid: isAdd, edgeOK: notErrorEdge, target: func(in ssa.Instruction) bool {
 					r, ok := in.(*ssa.Return)
-					return ok && c.isSuccessRet(fn, r)
+					return ok && c.mayBeSuccessRet(fn, r)
 				}})
 				if skip {
 					okPath = false
